@@ -14,6 +14,7 @@ mod c01;
 mod c02;
 mod c07;
 mod c13;
+mod c17;
 
 pub fn unhex(s: &str) -> Vec<u8> {
     if s == "-" {
@@ -43,6 +44,7 @@ fn run_case(line: &str) -> String {
         .or_else(|| c02::dispatch(kind, &f))
         .or_else(|| c07::dispatch(kind, &f))
         .or_else(|| c13::dispatch(kind, &f))
+        .or_else(|| c17::dispatch(kind, &f))
         .unwrap_or_else(|| format!("UNKNOWN-KIND {kind}"))
 }
 
